@@ -24,9 +24,15 @@ def run_files(pid, tier):
     fm = tlc.run_tlc("MC_FilesMap", "MC_FilesMap_q1.cfg", fresh_dir("run", f"filesmap-{tier}"), workers=1, timeout=300)
     if fm["violation"]:
         raise ToolError("MC_FilesMap: " + fm["violation"]["text"][:1000])
+    from .bounds import tlaps_proofs
+    fp = tlaps_proofs("FilesProofs", needs=("FilesCore.tla",),
+                      theorems=("SamePlace: the module of any source file is written to the same relative place; file -> module -> file is the identity",
+                                "ModuleInjective: different source files are different modules"))
     pl = Pipeline(tier, module="MC_Files", cfgs=CFG, name="files",
                   replay_flags=["--emit-dir", os.path.join(d, "emit"), "--project", "--via-fs"])
     cov = pl.base_coverage()
+    cov["tlaps"] = fp
+    cov["filesmap_states"] = fm.get("distinct")
     n_checked = n_model = n_acc = 0
     seen = set()
     for case, obs in pl.pairs():
